@@ -38,6 +38,7 @@ import (
 	"pgregory.net/rapid"
 
 	"zrntverif/gossipbackend"
+	"zrntverif/gossipmodel"
 	"zrntverif/refspec"
 	"zrntverif/report"
 	"zrntverif/sim"
@@ -197,6 +198,9 @@ func genView(rt *rapid.T, o viewOpts) *gossipbackend.ViewCase {
 			br.Slots = append(br.Slots, p)
 		}
 		vc.Branches = append(vc.Branches, br)
+	}
+	if o.tour < 0 && rapid.IntRange(0, 3).Draw(rt, "anchored") == 0 {
+		vc.Anchored = true // the receiving node was checkpoint-synced at the finalized block
 	}
 	return vc
 }
@@ -506,6 +510,14 @@ func record(r *report.Run, c *Case, out *outcome) {
 	if c.View.Config.Override["MAX_COMMITTEES_PER_SLOT"]*c.View.Config.Override["SLOTS_PER_EPOCH"] > 64 && c.Msg.Topic == "attestation" {
 		r.Class("scenario:attestation-on-a-view-with->64-committees-per-epoch")
 	}
+	if c.View.Anchored {
+		r.Class("receiver-view:checkpoint-synced")
+		if out.class == gossipmodel.MustIgnore && kind == "honest" {
+			// an honest message that the checkpoint-synced receiver cannot judge (vote, target or parent before its anchor)
+			r.Hit("checkpoint-synced-receiver:honest-message-must-be-ignored")
+			r.NonTrivial("anchored|" + c.Msg.Topic + "|" + out.first)
+		}
+	}
 	if out.nontrivial {
 		r.NonTrivial(out.key)
 		r.Class(out.key)
@@ -610,6 +622,7 @@ func TestCheck(t *testing.T) {
 	for i := range Catalogue {
 		r.Mandatory("row:" + Catalogue[i].Target)
 	}
+	r.Mandatory("checkpoint-synced-receiver:honest-message-must-be-ignored")
 	// class tour: one directed view per fork (head in phase0 / altair / bellatrix / capella), spread over the shards
 	lim := 4
 	if r.S.NShards > lim {
